@@ -341,7 +341,7 @@ CLAIMS = {
              "CheckManyInstructions, CheckEmptyLine, CheckLineIndent, CheckSpacing, CheckExpressionStatement, CheckControlStatement "
              "(Ok or Hang: the outcome theorem that predicted the check_nest loop), CheckIdentifierName, CheckPreprocessorIndent (ends normally or "
              "raises AttributeError on a missing token, never anything else), CheckPreprocessorInclude and CheckPreprocessorDefine (end normally, "
-             "raise AttributeError, or run on only when their unbounded scan has no closing token - fuel adequacy proved), the parameter counter of CheckFuncDeclaration "
+             "raise AttributeError, or run on only when their unbounded scan has no closing token - fuel adequacy proved), the parameter-counting slice of CheckFuncDeclaration (ends normally or with CParsingError, never AttributeError, since f414d35), the parameter counter of CheckFuncDeclaration "
              "with Context.skip_nest, CheckLineCount / CheckFunctionsCount / the variable counter, the scope bookkeeping of the "
              "registry loop) it is proved for EVERY token list and context that it ends normally under the invariants the "
              "registry guarantees (tokens not exhausted, matched primary already in the history, tkn_scope >= 0, scope chain "
